@@ -26,6 +26,8 @@ def sh(cmd, cwd=None, timeout=1800):
 
 def main():
     pid, name, src, needs = sys.argv[1:5]
+    noarg = len(sys.argv) > 5 and sys.argv[5] == "--no-arg"
+    extra = sys.argv[6] if len(sys.argv) > 6 else ""
     tree = "/tmp/vs-%s-%d" % (name, os.getpid())
     ran = []
     ok = False
@@ -33,8 +35,8 @@ def main():
         sh("git -C /repo worktree add --detach -f %s HEAD" % tree)
         os.makedirs(tree + "/seedwork", exist_ok=True)
         shutil.copy(os.path.join(src, "demo.cpp"), tree + "/seedwork/demo.cpp")
-        build_demo = "g++ -std=gnu++17 -O1 -msse4 -I%s/src seedwork/demo.cpp src/*.cpp -lz -llzma -lpthread -o seedwork/demo" % tree
-        run_demo = "cd seedwork && mkdir -p work && ./demo %s/seedwork/work" % tree
+        build_demo = "g++ -std=gnu++17 -O1 -msse4 -I%s/src seedwork/demo.cpp src/*.cpp -lz -llzma -lpthread %s -o seedwork/demo" % (tree, extra)
+        run_demo = "cd seedwork && mkdir -p work && ./demo %s" % ("" if noarg else tree + "/seedwork/work")
         rc, out = sh(build_demo, tree)
         if rc != 0:
             print("demo does not compile on unchanged sources:\n" + out[-2000:]); return 1
